@@ -250,6 +250,20 @@ claim('C06',
       'TLA+ spec (Dispatch.tla) + TLC exhaustive/simulation + replay of TLC behaviours + record validation (Dispatch_Trace.tla)',
       'DESIGN.md 3/C06')
 
+claim('C20',
+      'Flaw.tla models the supervising loop of the development server (child start, exit-3 reload, failed start with captured stderr -> '
+      'failsafe application -> monitored file fixed -> restart) and states FailsafeAlwaysUsable (whatever the captured text, the failsafe '
+      'can serve and can be left), plus the page requirements per (error-text class, file-list class); TLC checks the loop and '
+      'enumerates the 96 class pairs. Each pair is instantiated with concrete inputs - REAL tracebacks produced in subprocesses (8 '
+      'exception types x 3 stack depths, chained exceptions, a SyntaxError report), truncated / concatenated tracebacks, random, '
+      'non-printable, markup, template syntax, empty, None, bytes; file lists None / empty / 300 names / markup / non-ASCII - '
+      'flaw.create_app is called, several paths and methods plus an asset are requested, the page is projected with html.parser '
+      '(text and file names contained after unescaping, exception type and message named, no markup from the input) and TLC judges '
+      'every record (Flaw_Trace).',
+      'Trusted: TLC; html.parser; whitespace-normalised containment; the reloader loop\'s process management is model-checked, not executed.',
+      'TLA+ spec (Flaw.tla: reloader loop + page requirements) + TLC + record validation of projected real pages (Flaw_Trace.tla)',
+      'DESIGN.md 3/C20')
+
 ALL = ['C%02d' % i for i in range(1, 21)]
 
 
